@@ -541,7 +541,7 @@ def build(scene):
     return b
 
 
-STRUCTURE_INJECTIONS = ("diamond", "pack-loop", "empty-pack")
+STRUCTURE_INJECTIONS = ("diamond", "pack-loop", "empty-pack", "object-loop", "avs-dup", "hoa-attr")
 
 
 def _inject_structure(scene, b, roots):
@@ -558,6 +558,39 @@ def _inject_structure(scene, b, roots):
     if inj == "empty-pack":
         pk = AudioPackFormat(audioPackFormatName="empty", type=TypeDefinition.Objects)
         b.adm.addAudioPackFormat(pk)
+        return
+    if inj == "object-loop":
+        # an audioObject that (transitively) contains itself: rejected by _validate_object_loops
+        objs = list(b.adm.audioObjects)
+        for i, x in enumerate(objs):
+            # the loop message joins the audioObject ids: with ids left None (this generator does not assign them)
+            # the real code ends in TypeError instead of AdmError -- None ids are outside the quantifier (C14)
+            if x.id is None:
+                x.id = "AO_%04X" % (0x1001 + i)
+        if objs:
+            o = irng.choice(objs)
+
+            def leaves(x, seen):
+                if id(x) in seen:
+                    return []
+                seen.add(id(x))
+                return [x] if not x.audioObjects else [l for y in x.audioObjects for l in leaves(y, seen)]
+            irng.choice(leaves(o, set()) or [o]).audioObjects.append(o)
+        return
+    if inj == "avs-dup":
+        # the same alternativeValueSet referenced twice / from programme and content: _validate_avs_references
+        refs = [r for r in list(b.adm.audioProgrammes) + list(b.adm.audioContents) if r.alternativeValueSets]
+        if refs:
+            r = irng.choice(refs)
+            r.alternativeValueSets.append(r.alternativeValueSets[0])
+        return
+    if inj == "hoa-attr":
+        # one HOA channel of a pack with another normalization: _validate_hoa_parameters_consistent
+        hoa = [c for c in b.adm.audioChannelFormats
+               if c.type == TypeDefinition.HOA and not c.is_common_definition and c.audioBlockFormats]
+        if hoa:
+            bf = irng.choice(hoa).audioBlockFormats[0]
+            bf.normalization = "N3D" if bf.normalization != "N3D" else "FuMa"
         return
     if not own:
         return
